@@ -241,7 +241,8 @@ PROPS["C13"] = {
 
 PROPS["C06"] = {
     "title": "Each result faithfully describes its HTTP exchange",
-    "units": [{"name": "exchange", "pkg": "lib", "run": "^TestC06", "scale_thorough": 2}],
+    "units": [{"name": "exchange", "pkg": "lib", "run": "^TestC06", "scale_thorough": 2},
+              {"name": "cli", "pkg": "main", "run": "^TestC14Cli", "env": {"VERIF_AS": "C06"}, "shards_quick": 2, "shards_thorough": 8}],
     "rule": "rapid draws 1..3 targets per attack (real, random upper-case and invalid methods; http/https URLs; 0..6 "
             "headers with arbitrary key case, case-variant duplicates, multi-values, Host; bodies 0..200 KiB) and a "
             "scripted response per target: status 100..599 with real status texts, canonical response headers, body "
